@@ -231,7 +231,7 @@ def run_case(case, cpu_budget=120.0, record_args=False, delay=None, workdir=None
         opt.set_config_parameters(_json.loads(_json.dumps(case["cfg"])))
         cfg = opt.configuration
     before_cfg = canon(cfg, private=False)
-    before_task = canon(task, private=False)
+    before_task = task_view(task)
     old = signal.signal(signal.SIGVTALRM, _on_alarm)
     signal.setitimer(signal.ITIMER_VIRTUAL, cpu_budget)
     hooks.CUR.mon = mon
@@ -285,6 +285,17 @@ def best_of(costs, minmax):
     return min(vals) if minmax == "min" else max(vals)
 
 
+def task_view(task):
+    """declared fields of the task plus the bounds it reports (the property names variables, bounds, weights, data, seed)"""
+    d = canon(task, private=False)
+    try:
+        lb, ub = task.get_bounds()
+        d["get_bounds()"] = canon([list(lb), list(ub)])
+    except Exception as e:
+        d["get_bounds()"] = f"<{type(e).__name__}>"
+    return d
+
+
 def _apply_oracles(obs, case, spec, flat, cfg, task, before_cfg, before_task, mon, log, calls_file, result):
     opt_name = case["opt"]
     minmax = spec.get("minmax", "min")
@@ -292,7 +303,7 @@ def _apply_oracles(obs, case, spec, flat, cfg, task, before_cfg, before_task, mo
     st["steps"] = mon.steps
     # ---- C09: frozen inputs (also on the exception path)
     after_cfg = canon(cfg, private=False)
-    after_task = canon(task, private=False)
+    after_task = task_view(task)
     d1 = diff_fields(before_cfg, after_cfg, "config.")
     d2 = diff_fields(before_task, after_task, "task.")
     st["c09_fields_compared"] = len(before_cfg) + len(before_task)
